@@ -49,6 +49,7 @@ type c27 struct {
 	crossN   int
 	survN    map[string]int
 	maxAlloc uint64
+	didCostly bool
 }
 
 func toolFormat(ser string) string {
@@ -119,11 +120,12 @@ func (c *c27) evaluate(L *builtLog, ser string, from int, items []item, name str
 		c.r.Seen("panic_messages", v.Err)
 	}
 	c.crossN++
-	cross := c.crossN%997 == 0
+	cross := c.crossN%7919 == 0
 	if v.Pass {
 		// survivors: the first few per case name and serializer are confirmed from scratch
-		c.survN[name+"|"+ser]++
-		cross = cross || c.survN[name+"|"+ser] <= 3
+		k := strings.SplitN(name, "|", 2)[0] + "|" + ser
+		c.survN[k]++
+		cross = cross || c.survN[k] <= 2
 	}
 	if cross {
 		pass, msg := c.fromScratch(L, ser, from, items)
@@ -236,9 +238,13 @@ func (c *c27) fieldEnumeration(L *builtLog, rng *vkit.Rand, allEntries bool) {
 			}
 		}
 	}
-	tiny := map[int]bool{0: true, 1: true, n - 1: true}
-	for _, g := range L.groundings {
-		tiny[g-1], tiny[g], tiny[g+1] = true, true, g+1 < n
+	tiny := map[int]bool{}
+	if c.r.Thorough() && !c.didCostly {
+		c.didCostly = true
+		tiny[0] = true
+		if len(L.groundings) > 0 {
+			tiny[L.groundings[0]] = true
+		}
 	}
 	for len(sample) < c.r.N(160, 600) && len(sample) < n {
 		sample[rng.Intn(n)] = true
@@ -262,12 +268,13 @@ func (c *c27) fieldEnumeration(L *builtLog, rng *vkit.Rand, allEntries bool) {
 			}
 			doneMode := map[string]bool{}
 			for _, m := range c.muts {
-				if ser == "binary" && m.Field == "Type" {
-					// a changed Type makes the binary decoder mis-frame the stream and allocate
-					// attacker-sized (up to 4 GiB, zeroed) strings: ~0.2 s per case. Enumerated on
-					// a small set of entries only; the allocation is recorded as an observation.
+				if ser == "binary" && m.Field == "Type" && kindOf(L.entries[i]) != "l" {
+					// GENESIS/GROUNDING re-typed: the binary decoder then takes hash/signature bytes
+					// as a string length and allocates up to 4 GiB of zeroed memory before failing
+					// (seconds per case). Run in the thorough tier on one log only; the allocation is
+					// recorded as an observation.
 					if !tiny[i] {
-						c.r.Count("binary_type_mutations_not_run_for_cost", 1)
+						c.r.Count("binary_retyped_genesis_or_grounding_cases_not_run_for_cost", 1)
 						continue
 					}
 					var m0, m1 runtime.MemStats
@@ -326,6 +333,39 @@ func (c *c27) forgedLog(L *builtLog, prev []byte, blockSoFar [][]byte, n int, ts
 	return out
 }
 
+// rechain re-creates the log from entry `from` on as somebody holding the
+// Ed25519 entry key (but not the ML-DSA-87 key) could: edit is applied to the
+// cloned tail, then every entry is re-chained, re-hashed and re-signed with the
+// real Ed25519 key. Groundings get a recomputed Merkle root + Ed25519 root
+// signature (newRoot) or keep their old root; the ML-DSA signature cannot be renewed.
+func (c *c27) rechain(L *builtLog, from int, newRoot bool, edit func(tail []*auditlog.Entry) []*auditlog.Entry) []item {
+	var tail []*auditlog.Entry
+	for _, e := range L.entries[from:] {
+		tail = append(tail, cloneEntry(e))
+	}
+	tail = edit(tail)
+	prev := L.entries[from-1].Hash
+	block := append([][]byte{}, L.logHashes[L.blockStart[from]:L.logsBefore[from]]...)
+	var out []item
+	for _, e := range tail {
+		e.PreviousHash = prev
+		if d, ok := e.Details.(*auditlog.GroundingDetails); ok {
+			if newRoot {
+				d.MerkleRootHash = auditlog.CalculateMerkleRoot(block)
+				d.SignatureEd25519, _ = c.keys.signer.Sign(d.MerkleRootHash)
+			}
+			block = nil
+		}
+		_ = e.Sign(c.keys.signer)
+		if e.Type == auditlog.EntryTypeLog {
+			block = append(block, e.Hash)
+		}
+		prev = e.Hash
+		out = append(out, item{Orig: -1, Entry: e})
+	}
+	return out
+}
+
 type structCase struct {
 	name  string
 	a, b  int
@@ -337,16 +377,23 @@ type structCase struct {
 func (c *c27) structuralCases(L *builtLog, rng *vkit.Rand) []structCase {
 	n := len(L.entries)
 	var cs []structCase
-	pos := map[int]bool{0: true, 1: true, 2: true, n - 2: true, n - 1: true}
+	pos := map[int]int{0: 1, 1: 2, 2: 1, n - 2: 1, n - 1: 2}
 	for _, g := range L.groundings {
 		for d := -2; d <= 2; d++ {
 			if g+d >= 0 && g+d < n {
-				pos[g+d] = true
+				pos[g+d] = 1
 			}
 		}
+		pos[g] = 2 // cut right before a grounding
+		if g+1 < n {
+			pos[g+1] = 2 // cut right after a grounding
+		}
 	}
+	nCuts := 0
 	for len(pos) < c.r.N(60, 300) && len(pos) < n {
-		pos[rng.Intn(n)] = true
+		if p := rng.Intn(n); pos[p] == 0 {
+			pos[p] = 1
+		}
 	}
 	var ps []int
 	for p := range pos {
@@ -393,7 +440,10 @@ func (c *c27) structuralCases(L *builtLog, rng *vkit.Rand) []structCase {
 		}
 		// pure suffix cut after i entries (keeps entries[0:i]); i>=1 keeps at least GENESIS
 		if i >= 1 {
-			cs = append(cs, structCase{name: "suffix-cut", a: i, from: i, items: nil, allow: true})
+			if pos[i] == 2 || nCuts < 6 {
+				nCuts++
+				cs = append(cs, structCase{name: "suffix-cut", a: i, from: i, items: nil, allow: true})
+			}
 			// cut and append forged, well-formed continuation signed with another key
 			blk := L.logHashes[L.blockStart[i]:L.logsBefore[i]]
 			m := vkit.Pick(rng, []int{1, 3, auditlog.GroundingBlockSize - len(blk), auditlog.GroundingBlockSize - len(blk) + 2})
@@ -432,6 +482,31 @@ func (c *c27) structuralCases(L *builtLog, rng *vkit.Rand) []structCase {
 				cs = append(cs, structCase{name: "swap-two-blocks", a: 1, b: pg + 1, from: 1, items: append(its, origRange(g+1, n)...)})
 			}
 		}
+	}
+	// entry key compromised (Ed25519 only): rewrite inside a grounded block and re-sign everything after it
+	for gi, g := range L.groundings {
+		lo := 1
+		if gi > 0 {
+			lo = L.groundings[gi-1] + 1
+		}
+		for _, i := range []int{lo, lo + rng.Intn(g-lo), g - 1} {
+			editKey := func(t []*auditlog.Entry) []*auditlog.Entry {
+				t[0].Details.(*auditlog.LogDetails).Resource.Key += "-rewritten"
+				return t
+			}
+			cs = append(cs, structCase{name: "entry-key-holder-rewrites-grounded-entry-new-root", a: i, b: g, from: i, items: c.rechain(L, i, true, editKey)})
+			cs = append(cs, structCase{name: "entry-key-holder-rewrites-grounded-entry-old-root", a: i, b: g, from: i, items: c.rechain(L, i, false, editKey)})
+			cs = append(cs, structCase{name: "entry-key-holder-deletes-grounded-entry", a: i, b: g, from: i, items: c.rechain(L, i, true, func(t []*auditlog.Entry) []*auditlog.Entry { return t[1:] })})
+		}
+		if g+1 < n {
+			cs = append(cs, structCase{name: "entry-key-holder-drops-grounding", a: g, from: g, items: c.rechain(L, g, true, func(t []*auditlog.Entry) []*auditlog.Entry { return t[1:] })})
+		}
+		k := g - 1 - rng.Intn(20)
+		cs = append(cs, structCase{name: "entry-key-holder-moves-grounding-earlier", a: g, b: k, from: k, items: c.rechain(L, k, true, func(t []*auditlog.Entry) []*auditlog.Entry {
+			out := []*auditlog.Entry{t[g-k]}
+			out = append(out, t[:g-k]...)
+			return append(out, t[g-k+1:]...)
+		})})
 	}
 	// whole log forged with another key pair
 	ph := sha512.Sum512([]byte("pithos"))
@@ -475,9 +550,9 @@ func (c *c27) structural(L *builtLog, rng *vkit.Rand) {
 
 func runC27(tier, replay string) {
 	r := vkit.Begin("C27", "fault_enumeration", tier)
-	r.SetRule("tamper cases = generated valid signed logs (GENESIS, 1005..2100 LOG entries with every LogDetails field populated incl. copy source, groundings; real Entry.Sign/CalculateMerkleRoot/signers) x entry x every field of Entry/LogDetails/GroundingDetails x change variant x forgery mode (field only | hash recomputed | hash recomputed and signed with another key) x serializer (binary, json, json-indent), re-encoded and verified with the real decoder + Validator + real verifiers; plus structural cases (delete, duplicate, swap, insert genuine/forged, move, move across grounding, delete/misplace/transplant grounding, delete/swap blocks, cut+append forged or replayed entries, whole forged log, allowed suffix cuts); plus Decode(Encode(e))==e on random entries. distinct = distinct (field, variant, mode, serializer, entry kind) resp. (structural kind, serializer, detection reason) resp. (serializer, entry class) tuples")
+	r.SetRule("tamper cases = generated valid signed logs (GENESIS, 1005..2100 LOG entries with every LogDetails field populated incl. copy source, groundings; real Entry.Sign/CalculateMerkleRoot/signers) x entry x every field of Entry/LogDetails/GroundingDetails x change variant x forgery mode (field only | hash recomputed | hash recomputed and signed with another key) x serializer (binary, json, json-indent), re-encoded and verified with the real decoder + Validator + real verifiers; plus structural cases (delete, duplicate, swap, insert genuine/forged, move, move across grounding, delete/misplace/transplant grounding, delete/swap blocks, cut+append forged or replayed entries, whole forged log, holder of the Ed25519 entry key (not the ML-DSA key) rewriting/deleting inside a grounded block or dropping/moving a grounding with everything re-chained and re-signed, allowed suffix cuts); plus Decode(Encode(e))==e on random entries. distinct = distinct (field, variant, mode, serializer, entry kind) resp. (structural kind, serializer, detection reason) resp. (serializer, entry class) tuples")
 	r.Assume("verification = auditlog.Validator with real Ed25519 and ML-DSA-87 verifiers as used by auditlog/tool.Verify; a decode error or a contained panic counts as 'verification fails'")
-	r.Assume("incremental evaluation: validation restarts from the validator state after the untouched prefix and stops early when the validator is back in a baseline state with only untouched entries left; the first 3 surviving cases per (field, variant, mode, serializer), every allowed suffix cut and every 997th case are re-verified from scratch on a real file with tool.AuditLogTool.Verify, disagreement => inconclusive")
+	r.Assume("incremental evaluation: validation restarts from the validator state after the untouched prefix and stops early when the validator is back in a baseline state with only untouched entries left; the first 2 surviving cases per (field or structural kind, serializer) of each log, every allowed suffix cut and every 7919th case are re-verified from scratch on a real file with tool.AuditLogTool.Verify, disagreement => inconclusive")
 	r.Assume("an attacker cannot sign with the log's keys (forgeries use another key pair)")
 	r.Assume("round-trip: timestamps within 1980..2200 compared as instants (UnixNano); empty and nil byte slices are the same value; legacy versions 1 and 2 are generated only with the fields their encodings carry")
 	r.SetExhaustive(false)
@@ -505,10 +580,16 @@ func runC27(tier, replay string) {
 		if L == nil {
 			continue
 		}
+		c.survN = map[string]int{}
+		t0 := time.Now()
 		c.fieldEnumeration(L, rng.Fork(fmt.Sprintf("fields-%d", pi)), p.all)
+		t1 := time.Now()
 		c.structural(L, rng.Fork(fmt.Sprintf("struct-%d", pi)))
+		fmt.Fprintf(os.Stderr, "log %d (n=%d): fields %.1fs structural %.1fs\n", pi, p.n, t1.Sub(t0).Seconds(), time.Since(t1).Seconds())
 	}
+	t2 := time.Now()
 	c.roundTrip(rng.Fork("roundtrip"))
+	fmt.Fprintf(os.Stderr, "roundtrip %.1fs\n", time.Since(t2).Seconds())
 
 	// evidence: applied / detected / survived per field and per structural kind
 	tbl := map[string]map[string]int64{}
